@@ -100,6 +100,34 @@ fn build(dir: &str, fs: &[&str]) -> Result<String, String> {
     Ok(exe)
 }
 
+fn dir_ids_path() -> String {
+    format!("{}/work/c20/dir_ids.txt", crate::verif_dir())
+}
+
+/// every key of likelySubtags.json and every CLDR layout locale, one per line (the direction
+/// column of the transcript is printed for each of them in every configuration)
+fn write_dir_ids(repo: &str) -> Result<u64, String> {
+    let mut ids: BTreeSet<String> = BTreeSet::new();
+    let txt = std::fs::read_to_string(format!("{}/unic-langid-impl/data/likelySubtags.json", repo)).map_err(|e| e.to_string())?;
+    let v: serde_json::Value = serde_json::from_str(&txt).map_err(|e| e.to_string())?;
+    if let Some(m) = v["supplemental"]["likelySubtags"].as_object() {
+        for (k, val) in m {
+            ids.insert(k.clone());
+            if let Some(x) = val.as_str() {
+                ids.insert(x.to_string());
+            }
+        }
+    }
+    if let Ok(rd) = std::fs::read_dir(format!("{}/unic-langid-impl/data/cldr-misc-full/main", repo)) {
+        for e in rd.flatten() {
+            ids.insert(e.file_name().to_string_lossy().to_string());
+        }
+    }
+    let _ = std::fs::create_dir_all(format!("{}/work/c20", crate::verif_dir()));
+    std::fs::write(dir_ids_path(), ids.iter().cloned().collect::<Vec<_>>().join("\n")).map_err(|e| e.to_string())?;
+    Ok(ids.len() as u64)
+}
+
 struct Transcript {
     /// (section, chunk) -> (lines, digest)
     chunks: BTreeMap<(String, u64), (u64, String)>,
@@ -109,7 +137,7 @@ struct Transcript {
 }
 
 fn run_transcript(exe: &str, depth: u32) -> Result<Transcript, String> {
-    let out = std::process::Command::new(exe).env("C20_DEPTH", depth.to_string()).output().map_err(|e| format!("cannot run {}: {}", exe, e))?;
+    let out = std::process::Command::new(exe).env("C20_DEPTH", depth.to_string()).env("C20_DIR_IDS", dir_ids_path()).output().map_err(|e| format!("cannot run {}: {}", exe, e))?;
     if !out.status.success() {
         return Err(format!("{} exited with {:?}: {}", exe, out.status, String::from_utf8_lossy(&out.stderr).chars().take(500).collect::<String>()));
     }
@@ -149,6 +177,12 @@ pub fn run_c20(ctx: &Ctx) -> Report {
         }
     };
     let depth = if ctx.quick() { 3 } else { 4 };
+    match write_dir_ids(&ctx.repo) {
+        Ok(n) => {
+            rep.extra.insert("direction_identifiers_from_cldr_data".into(), json!(n));
+        }
+        Err(e) => rep.engine_failures.push(format!("cannot write the direction identifier list: {}", e)),
+    }
     // feature sets
     let mut sets: Vec<Vec<&str>> = vec![];
     if ctx.quick() {
